@@ -182,6 +182,81 @@ pub fn run(ctx: &Ctx, rep: &mut Report) {
             },
         );
     }
+    // ---- every option number, every request code, every code x type: the preparation rule looks at the type only
+    {
+        let radices = [65536u64, 2, 3];
+        let n = product(&radices);
+        ctx.family(
+            rep,
+            "request-every-option-number",
+            "CON/NON request carrying option number 0..=65535 (every value) with {no value, one byte, 14 bytes}, alone or next to Uri-Path: the reply is prepared and correlated as always",
+            n,
+            true,
+            |i, rep| {
+                let d = decode(i, &radices);
+                let num = d[0] as u16;
+                let val: Vec<u8> = match d[2] {
+                    0 => vec![],
+                    1 => vec![num as u8],
+                    _ => pattern(14, num as u8),
+                };
+                let mut req = request_packet(1, d[1] as u8, (num % 9) as usize, num ^ 0x5A5A, 0);
+                if num & 1 == 1 {
+                    req.add_option(CoapOption::UriPath, b"p".to_vec());
+                }
+                req.add_option(CoapOption::from(num), val);
+                let r = guard(|| {
+                    let a = CoapResponse::new(&req).map(|r| r.message);
+                    let b = CoapRequest::from_packet(req.clone(), 3u32);
+                    (a, b)
+                });
+                match r {
+                    Err(pn) => rep.violation(viol("request-every-option-number", i, format!("C07/panic@{}", pn.site()), pn.message, msg_json(&to_ref(&req)))),
+                    Ok((a, b)) => {
+                        let ok1 = check_reply("request-every-option-number", i, "CoapResponse::new", &req, a.as_ref(), rep);
+                        let ok2 = check_reply("request-every-option-number", i, "CoapRequest::from_packet", &req, b.response.as_ref().map(|r| &r.message), rep);
+                        if ok1 && ok2 {
+                            rep.bucket(&("ropt-all", num >> 12, d[1], d[2]));
+                        }
+                    }
+                }
+            },
+        );
+        let radices = [256u64, 4, 2];
+        let n = product(&radices);
+        ctx.family(
+            rep,
+            "request-every-code",
+            "a message with every code byte 0..=255 (requests, responses, empty, reserved) x every type x {bare, with options and payload}: prepared iff CON or NON, correlated as always",
+            n,
+            true,
+            |i, rep| {
+                let d = decode(i, &radices);
+                let mut req = request_packet(1, d[1] as u8, 4, 0x1000 + d[0] as u16, 0);
+                req.header.code = coap_lite::MessageClass::from(d[0] as u8);
+                if d[2] == 1 {
+                    req.add_option(CoapOption::UriPath, b"x".to_vec());
+                    req.add_option(CoapOption::from(2049u16), vec![1, 2, 3]);
+                    req.payload = vec![0xFF, 1, 2];
+                }
+                let r = guard(|| {
+                    let a = CoapResponse::new(&req).map(|r| r.message);
+                    let b = CoapRequest::from_packet(req.clone(), 3u32);
+                    (a, b)
+                });
+                match r {
+                    Err(pn) => rep.violation(viol("request-every-code", i, format!("C07/panic@{}", pn.site()), pn.message, msg_json(&to_ref(&req)))),
+                    Ok((a, b)) => {
+                        let ok1 = check_reply("request-every-code", i, "CoapResponse::new", &req, a.as_ref(), rep);
+                        let ok2 = check_reply("request-every-code", i, "CoapRequest::from_packet", &req, b.response.as_ref().map(|r| &r.message), rep);
+                        if ok1 && ok2 {
+                            rep.bucket(&("rcode", d[0] >> 5, d[1], d[2]));
+                        }
+                    }
+                }
+            },
+        );
+    }
     // ---- apply_from_error: every ResponseType and None x messages x response shapes
     {
         let codes: Vec<Option<u8>> = std::iter::once(None)
